@@ -462,7 +462,7 @@ pub fn eval_unit_name(
             },
             BinOpType::Add | BinOpType::Sub => {
                 let (left_unit, left) = eval_unit_name(ctx, &binop.left)?;
-                let (right_unit, _right) = eval_unit_name(ctx, &binop.right)?;
+                let (right_unit, right) = eval_unit_name(ctx, &binop.right)?;
 
                 if left_unit != right_unit {
                     return Err(QueryError::generic(
@@ -471,7 +471,14 @@ pub fn eval_unit_name(
                             .to_string(),
                     ));
                 }
-                Ok((left_unit, left))
+                // Both sides count the same units, so the constant is their
+                // sum or difference.
+                let value = if let BinOpType::Add = binop.op {
+                    &left + &right
+                } else {
+                    &left - &right
+                };
+                Ok((left_unit, value))
             }
             BinOpType::Frac => {
                 let (left_unit, left) = eval_unit_name(ctx, &binop.left)?;
@@ -525,18 +532,21 @@ pub fn eval_unit_name(
             )),
             BinOpType::Mod => {
                 let (left_unit, left) = eval_unit_name(ctx, &binop.left)?;
-                let (right_unit, _right) = eval_unit_name(ctx, &binop.right)?;
+                let (right_unit, right) = eval_unit_name(ctx, &binop.right)?;
 
                 if left_unit != right_unit {
                     return Err(QueryError::generic(
                         "Modulo of values with differing dimensions is not meaningful".to_string(),
                     ));
                 }
-                Ok((left_unit, left))
+                if right == Numeric::zero() {
+                    return Err(QueryError::generic("Modulo by zero".to_string()));
+                }
+                Ok((left_unit, &left % &right))
             }
             BinOpType::And | BinOpType::Or | BinOpType::Xor => {
                 let (left_unit, left) = eval_unit_name(ctx, &binop.left)?;
-                let (right_unit, _right) = eval_unit_name(ctx, &binop.right)?;
+                let (right_unit, right) = eval_unit_name(ctx, &binop.right)?;
 
                 if !left_unit.is_empty() || !right_unit.is_empty() {
                     return Err(QueryError::generic(format!(
@@ -544,7 +554,14 @@ pub fn eval_unit_name(
                         binop.op
                     )));
                 }
-                Ok((left_unit, left))
+                let (left, right) = (Number::new(left), Number::new(right));
+                let value = match binop.op {
+                    BinOpType::And => left.and(&right),
+                    BinOpType::Or => left.or(&right),
+                    _ => left.xor(&right),
+                }
+                .map_err(QueryError::generic)?;
+                Ok((left_unit, value.value))
             }
         },
         Expr::Mul { ref exprs } => {
